@@ -376,7 +376,7 @@ class TheCheck(Check):
         sts.append(Stream("md5-file-ranges", ops, history=True, note="short reads via --wrap=read"))
         # 5. every function called from several threads at once, each thread on its own input
         ops = []
-        for ln in ([1, 55, 64, 300, 5000, 70000] if quick else [1, 3, 15, 16, 55, 56, 64, 65, 300, 5000, 70000, 300000]):
+        for ln in ([1, 55, 64, 300, 5000, 20000] if quick else [1, 3, 15, 16, 55, 56, 64, 65, 300, 5000, 70000, 300000]):
             x = bytes(rng.randrange(256) for _ in range(ln))
             ops.append("allmt %d %d %s" % (4 if quick else 8, 40 if ln < 5000 else 8, hexs(x)))
         sts.append(Stream("concurrent-callers", ops, note="pure functions: no hidden shared state"))
